@@ -129,8 +129,10 @@ def refine_frame(ex, st, pre_heap, log, uid0):
         conds = []
         ok = True
         for (at, hint, fresh_obj, preds) in entries:
-            if fresh_obj:
-                continue            # object allocated inside the body: not alive at loop entry
+            if fresh_obj and ex.entry_alive is not None:
+                # an object allocated during the current activation: not alive at function entry
+                conds.append(z3.Not(ex.entry_alive[o]))
+                continue
             if preds is not None:
                 pl, ovar = preds
                 if any(_max_uid(p) >= uid0 for p in pl):
@@ -143,7 +145,7 @@ def refine_frame(ex, st, pre_heap, log, uid0):
                 break
             if _max_uid(at) < uid0:
                 conds.append(o == at)
-            elif name == "$seq" and hint is not None and hint.kind == "list" and hint.name not in ("Local", "Any"):
+            elif name == "$seq" and hint is not None and hint.kind == "list" and hint.name != "Any":
                 conds.append(role_of(o) == ex.rid(hint.name))
             else:
                 ok = False
@@ -172,8 +174,13 @@ def havoc_locals(ex, st, names, ends):
                 hints.add(repr(s2.env[n].h))
         kinds.add(cur.k)
         hints.add(repr(cur.h))
+        all_fresh = cur.fresh and all(s2.env[n].fresh for s2, oc in ends if n in s2.env)
         if len(kinds) == 1 and len(hints) == 1:
             nv = SV(cur.k, fresh(n, ex.z3sort(cur.k)), cur.h)
+            if all_fresh and cur.k == "ref" and ex.entry_alive is not None:
+                # every value this local can take was allocated during the current activation
+                nv.fresh = True
+                st.assume(z3.Not(ex.entry_alive[nv.t]))
             if cur.h is not None:
                 try:
                     p = ex.type_pred(cur.h, nv.t, st, "val" if (cur.k == "val") else None) if not (cur.k != "val" and cur.h.sort() == "val") else None
@@ -223,12 +230,39 @@ def assume_invs(ex, st, invs, env_extra):
 def exec_for(ex, stmt, st):
     if stmt.orelse:
         raise Unsupported("for-else", stmt)
+    if isinstance(stmt.iter, (ast.List, ast.Tuple)) and len(stmt.iter.elts) <= 8 and all(
+            isinstance(e, ast.Constant) for e in stmt.iter.elts):
+        return unrolled_for(ex, stmt, st)
     out = []
     for s, it in ex.ev(stmt.iter, st):
         if isinstance(it, Exc):
             out.append((s, ("raise", it)))
             continue
         out.extend(for_over(ex, stmt, s, it))
+    return out
+
+
+def unrolled_for(ex, stmt, st):
+    """a loop over a literal list of constants is unrolled exactly (no invariant needed)"""
+    states = [(st, None)]
+    for elt in stmt.iter.elts:
+        nxt = []
+        for s, oc in states:
+            if oc is not None:
+                nxt.append((s, oc))
+                continue
+            v = ex.ev1(elt, s)
+            ex.bind_target(s, stmt.target, v, stmt)
+            for s2, oc2 in ex.exec_block(stmt.body, s):
+                if oc2 is not None and oc2[0] == "continue":
+                    oc2 = None
+                nxt.append((s2, oc2))
+        states = nxt
+    out = []
+    for s, oc in states:
+        if oc is not None and oc[0] == "break":
+            oc = None
+        out.append((s, oc))
     return out
 
 
@@ -239,6 +273,10 @@ def for_over(ex, stmt, st, it):
     heap_list = it if (it.k == "ref" and it.h is not None and it.h.kind == "list") else None
 
     def body_from(s, idx):
+        # the index / iterated sequence of this loop stay visible to invariants of nested loops
+        s.env[f"_i{k}"] = SV("int", idx, T("int"))
+        s.env[f"_it{k}"] = SV("seq", S0, Ty("seq", args=[ety] if ety else []))
+        s.assume(z3.Implies(z3.And(0 <= idx, idx < Len(S0)), smt.elem_fact(S0, idx)))
         x = ex.wrap_elem(At(S0, idx), ety, s)
         ex.bind_target(s, stmt.target, x, stmt)
         return ex.exec_block(stmt.body, s)
